@@ -239,6 +239,14 @@ pub fn run(ctx: &mut Ctx) -> (String, Value, Vec<String>) {
             _ => {}
         }
     }
+    // prefix objects with many steps (dozens to more than a thousand)
+    for src in [ArrSpec::Periodic { t: 1 }, ArrSpec::Sporadic { t: 1, j: 0 }, ArrSpec::Sporadic { t: 2, j: 5 }, ArrSpec::Sporadic { t: 1, j: 3 }, ArrSpec::Periodic { t: 3 }] {
+        for hz in [33u64, 40, 70, 1100, 3100] {
+            let p = ArrSpec::PrefixFromBoundUntil { inner: Box::new(src.clone()), horizon: hz };
+            check_derived(ctx, "ArrivalCurvePrefix::from_arrival_bound_until", &p, &src, h.max(hz.min(1200)), &mut tally);
+            check_derived(ctx, "Curve::from(&ArrivalCurvePrefix)", &ArrSpec::CurveFromPrefix { inner: Box::new(p.clone()) }, &p, h.max(hz.min(1200)), &mut tally);
+        }
+    }
     for (hz, st) in [(8u64, vec![(1u64, 1usize), (3, 2), (7, 3)]), (5, vec![(1, 2), (4, 3)]), (6, vec![(1, 1)]), (4, vec![(1, 1), (4, 2)]), (10, vec![(1, 1), (2, 2), (9, 4)])] {
         let p = ArrSpec::Prefix { horizon: hz, steps: st };
         check_derived(ctx, "Curve::from(&ArrivalCurvePrefix)", &ArrSpec::CurveFromPrefix { inner: Box::new(p.clone()) }, &p, h, &mut tally);
